@@ -295,8 +295,34 @@ def r6_roundings(ctx):
             ctx.bad("round-up|%s|%s" % (var, sh(e)[:50]), fn.where(b), "%s = %s is not the round-UP idiom (x + a - 1) & !(a - 1) with a = %s: a round-down would hand out unaligned/overlapping blocks or release live pages" % (var, sh(e)[:90], align))
 
 
+def r7_typed_front_ends(ctx):
+    """alloc_uninit::<T>() and alloc_uninit_slice::<T>(n) hand out memory for one T / n Ts: the raw request is size_of::<T>()
+    (times n) bytes at align_of::<T>(), and the slice they return has exactly n elements."""
+    for fid, want_size in ((B + "alloc_uninit", "size_of()"), (B + "alloc_uninit_slice", "Mul(size_of(),count)")):
+        f = ctx.need(fid)
+        ctx.touch(f)
+        ar = f.calls_to(B + "alloc_raw")
+        short = fid.split("::")[-1]
+        if len(ar) != 1:
+            ctx.bad("typed|%s|shape" % short, f.where(), "%s no longer makes exactly one alloc_raw request" % short)
+            continue
+        size = sh(ne(f.deep(ar[0].args[1]))).replace(" ", "")
+        align = sh(ne(f.deep(ar[0].args[2]))).replace(" ", "")
+        mirror = "Mul(count,size_of())"
+        if size in (want_size, mirror) and align == "align_of()":
+            ctx.ok("typed|%s|request" % short, f.where(ar[0].block), "alloc_raw(%s, %s)" % (size, align))
+        else:
+            ctx.bad("typed|%s|request|%s,%s" % (short, size[:24], align[:12]), f.where(ar[0].block), "%s::<T> requests `%s` bytes aligned to `%s` instead of %s at align_of::<T>(): for a type whose size differs from its alignment the block is too small (it overlaps the next allocation / reaches uncommitted memory) or misaligned" % (short, size, align, want_size))
+        if short == "alloc_uninit_slice":
+            fr = [c for c in f.calls() if (c.callee or "").endswith("from_raw_parts_mut")]
+            if fr and sh(ne(f.deep(fr[0].args[1]))) == "count":
+                ctx.ok("typed|%s|length" % short, f.where(fr[0].block), "slice of `count` elements")
+            else:
+                ctx.bad("typed|%s|length" % short, f.where(), "alloc_uninit_slice returns a slice whose length is not `count`")
+
+
 RULES = [("C11-R1", r1_no_out_of_bounds_block), ("C11-R2", r2_who_writes_cursor), ("C11-R3", r3_grow), ("C11-R4", r4_debug_wrapper),
-         ("C11-R5", r5_scoped_reset), ("C11-R6", r6_roundings)]
+         ("C11-R5", r5_scoped_reset), ("C11-R6", r6_roundings), ("C11-R7", r7_typed_front_ends)]
 
 EXPLANATION = (
     "R1: alloc_raw's fast path returns Ok only under end <= commit and otherwise delegates (beg, end) to alloc_raw_bump, which "
@@ -309,6 +335,9 @@ EXPLANATION = (
     "[keep, commit). R6: the four roundings use the round-up mask idiom with a power-of-two chunk (idiom recognition, fails "
     "closed on an unrecognised form). Not decided: that blocks are disjoint over a history, behaviour at the 64 KiB and "
     "capacity boundaries, arithmetic overflow - value reasoning declined for this family."
+)
+EXPLANATION += (
+    " R7: alloc_uninit / alloc_uninit_slice request size_of::<T>() (* count) bytes at align_of::<T>() and return `count` elements."
 )
 ASSUMPTIONS = ["the recognised round-up idioms compute what they are known to compute", "unix virtual-memory back end"]
 TRUSTED = ["rustc nightly MIR and const-eval", "nsx exporter", "nsverif relational-guard extraction"]
